@@ -31,7 +31,6 @@ from pynguin.instrumentation.version.common import (
     InstrumentationMethodCall,
     InstrumentationSetupAction,
     InstrumentationStackValue,
-    before,
 )
 from pynguin.instrumentation.version.python3_10 import (
     ACCESS_NAMES,
@@ -533,7 +532,8 @@ class BranchCoverageInstrumentation(python3_10.BranchCoverageInstrumentation):
             )
         )
 
-        node.basic_block[before(instr_index)] = self.instructions_generator.generate_instructions(
+        position = node.before(instr_index)
+        node.basic_block[position] = self.instructions_generator.generate_instructions(
             InstrumentationSetupAction.COPY_FIRST,
             InstrumentationMethodCall(
                 self._subject_properties.instrumentation_tracer,
@@ -596,7 +596,8 @@ class CheckedCoverageInstrumentation(python3_10.CheckedCoverageInstrumentation):
             instr_index -= 1
 
         # Instrumentation before the original instruction
-        node.basic_block[before(instr_index)] = self.instructions_generator.generate_instructions(
+        position = node.before(instr_index)
+        node.basic_block[position] = self.instructions_generator.generate_instructions(
             InstrumentationSetupAction.NO_ACTION,
             InstrumentationMethodCall(
                 self._subject_properties.instrumentation_tracer,
